@@ -453,6 +453,14 @@ func runC18(c *report.Ctx) {
 				}
 			}
 			return true
+		}, CutEdge: func(from, to *ssa.BasicBlock) bool {
+			// the `am == nil` edge itself, wherever it leads (with merged returns the Return is further on)
+			ea := edgeAtoms(p, from, to)
+			if ea == nil || ea.Op != token.EQL || ea.Y == nil || !an.IsNilConst(ea.Y) || ea.X == nil {
+				return false
+			}
+			n := an.NamedOf(ea.X.Type())
+			return n != nil && n.Obj().Name() == "AddrManager"
 		}}
 		if w := s.Run(errBlk, 0, uc.Block()); w != nil {
 			c.Fail(key, "after a failed transaction the keystore cached by it is not removed: a phantom wallet without database record stays listed", posOf(c, uc), w...)
@@ -467,6 +475,22 @@ func runC18(c *report.Ctx) {
 		}
 		key2 := sk(f) + ":repair-id-set-before-later-steps"
 		pcs := calls(cl, prod)
+		if len(pcs) == 0 {
+			// the producer is called through a function value the closure was given (the two import variants sharing one
+			// transaction body, each passing its own `load` literal): the call of that value stands for the producer
+			an.Instrs(cl, func(in ssa.Instruction) {
+				call, ok := in.(*ssa.Call)
+				if !ok || call.Call.IsInvoke() || call.Call.StaticCallee() != nil {
+					return
+				}
+				for _, g := range p.Callees(call) {
+					if len(calls(g, prod)) == 1 {
+						pcs = append(pcs, in)
+						return
+					}
+				}
+			})
+		}
 		if len(pcs) != 1 {
 			c.Fail(key2, "the transaction closure no longer calls "+sk(prod)+" exactly once", p.Pos(cl.Pos()))
 			continue
